@@ -34,7 +34,9 @@ RULES = [
     ('R-ptr', r'\bslice\.as_mut_ptr\(\)', 'slice.as_ptr()'),
     ('R-ptr', r'\bslice::from_raw_parts(?:_mut)?\(', 'from_raw_parts('),
     ('R-panic', r'panic!\("[^"]*"\);', 'return PanicOr::Panic;'),
-    ('R-panic', r'assert!\( ?([^,]+), "[^"]*",? ?\);', r'if !(\1) { return PanicOr::Panic; }'),
+    # a debug assertion is absent in release builds: it guarantees nothing, but it must never be able to fail
+    ('R-panic', r'debug_assert!\( ?([^,;]+?)(?:, "[^"]*")?,? ?\);', r'if !(\1) { assert(false) /*OB:views.debug-assertion-can-never-fail:C02,C10*/; }'),
+    ('R-panic', r'(?<!debug_)assert!\( ?([^,]+), "[^"]*",? ?\);', r'if !(\1) { return PanicOr::Panic; }'),
     ('R-view', r'\(&(?:mut )?\[\], &(?:mut )?\[\]\)', '(Sl::empty(), Sl::empty())'),
     ('R-panic', r'\breturn (?!PanicOr)([^;]+);', r'return PanicOr::Ret(\1);'),
     ('R-call', r'GenericArray::from_mut_slice\(slice\)', 'match from_mut_slice::<N>(slice) { PanicOr::Ret(__r) => __r, PanicOr::Panic => { return PanicOr::Panic; } }'),
